@@ -136,6 +136,19 @@ template <class K, size_t S> struct Runner : IRunner {
       return "ok a=" + std::to_string(a) + " own=" + std::to_string(own) + " mism=" + std::to_string(AllocReg::mismatches().load());
     }
 #endif
+    if (op == "ltmoveassign" && w.size() == 3) {
+      // locked_table move assignment onto an ACTIVE locked_table: `lt_a = std::move(lt_b)` ends a's section (table a is
+      // handed back unlocked) and a's handle now owns table b; the moved-from handle is inactive
+      size_t src = num(2);
+      if (src >= 8 || src == id || !lts[id] || !lts[src]) return "bad-table";
+      *lts[id] = std::move(*lts[src]);
+      bool src_active = lts[src]->is_active(), dst_active = lts[id]->is_active();
+      lts[src] = std::move(lts[id]);            // keep the handle that owns table `src` in slot `src`
+      lts[id].reset();
+      if (src_active) return "DIFF the moved-from locked_table still reports is_active()";
+      if (!dst_active) return "DIFF the assigned-to locked_table is not active";
+      return "ok";
+    }
     if ((op == "copy" || op == "move" || op == "swap") && w.size() == 3) {
       size_t src = num(2);
       if (src >= 8 || !tabs[src] || moved_from[src] || lts[src] || lts[id]) return "bad-table";
@@ -219,6 +232,21 @@ template <class K, size_t S> struct Runner : IRunner {
       }
       if (op == "lock") { return guard([&] { lts[id].reset(new LT(t.lock_table())); return std::string("ok"); }); }
       if (op == "unlock") { lts[id].reset(); return "ok"; }
+      if (op == "probe") {
+        // are the table's locks free?  (every lock of every array; an active locked_table holds the current array)
+        auto &gens = Access::all_locks(t);
+        size_t held = 0, total = 0, cur_held = 0, cur_total = std::prev(gens.end())->size();
+        size_t gi = 0;
+        for (auto it = gens.begin(); it != gens.end(); ++it, ++gi)
+          for (size_t i = 0; i < it->size(); ++i) {
+            ++total;
+            if ((*it)[i].try_lock()) (*it)[i].unlock();
+            else { ++held; if (gi + 1 == gens.size()) ++cur_held; }
+          }
+        if (held == 0) return "ok free";
+        if (cur_held == cur_total) return "ok held";
+        return "DIFF " + std::to_string(held) + " of " + std::to_string(total) + " locks are held (neither free nor an exclusive section)";
+      }
       if (op == "write") {
         if (!lts[id]) return "bad-table";
         return write_wire(id);
